@@ -67,6 +67,8 @@ def p_C18(res, facts, tier):
     midi.check_routing(res, facts)
     # the documented values are what the getters return: each getter is the field itself, read-only
     midi.check_level_getters(res, facts)
+    # "on the listened channel": controller and pitch-bend messages of other channels change nothing (shared with C06)
+    midi.check_frame(res, facts, kinds={'ControlChange', 'PitchBendChange'})
 
 
 def p_C01(res, facts, tier):
@@ -84,6 +86,7 @@ def p_C01(res, facts, tier):
 
 def p_C02(res, facts, tier):
     from .rules import dds
+    dds.check_constructors(res, facts, dds.ADSR)
     dds.check_gates(res, facts, 'C02')
     dds.check_tick(res, facts, 'C02')
     dds.check_set_input(res, facts)
@@ -113,6 +116,8 @@ def p_C10(res, facts, tier):
 
 def p_C11(res, facts, tier):
     from .rules import dds
+    dds.check_constructors(res, facts, dds.LFO)
+    dds.check_waves(res, facts, 'C11')
     dds.check_pa_methods(res, facts, dds.LFO, 'C11')
     dds.check_lfo_wrappers(res, facts)
     dds.check_bits(res, facts, [dds.LFO], which=('ramp',))
